@@ -5,10 +5,20 @@ import glob, json, os, subprocess
 ROOT = os.path.join(os.path.dirname(os.path.abspath(__file__)), "..")
 props = [json.loads(l) for l in open(os.path.join(ROOT, "properties.jsonl"))]
 specs = {}
+tracked = set(subprocess.run(["git", "-C", ROOT, "ls-files", "props", "evidence"], capture_output=True, text=True).stdout.split())
 for f in sorted(glob.glob(os.path.join(ROOT, "props", "C*.json"))):
+    if "props/" + os.path.basename(f) not in tracked or "evidence/" + os.path.basename(f) not in tracked:
+        continue  # only committed work is claimed
     s = json.load(open(f))
     complete = all(k in s for k in ("level_text", "level_note", "technique", "theorems", "group")) and s["theorems"]
-    if s.get("claimed", True) and complete and os.path.exists(os.path.join(ROOT, "evidence", s["id"] + ".json")):
+    evp = os.path.join(ROOT, "evidence", s["id"] + ".json")
+    ok = False
+    if os.path.exists(evp):
+        try:
+            ok = json.load(open(evp)).get("violations", 1) == 0
+        except Exception:
+            ok = False
+    if s.get("claimed", True) and complete and ok:
         specs[s["id"]] = s
 na_reasons = json.load(open(os.path.join(ROOT, "tools", "not_applicable.json")))
 hooks = [l.split()[0] for l in subprocess.run(
